@@ -6,7 +6,7 @@ from vlib import tlc, gorun, core
 
 PROPS = ['C03']
 HARNESS = ['zz_layout_test.go']
-INV = 'NoPanic PeerMaps LayoutSound PeerSame SortedThroughGlobal QueueSound CrossWired ArmAligned'
+INV = 'NoPanic PeerMaps LayoutSound PeerSame HeldWords SortedThroughGlobal QueueSound CrossWired ArmAligned'
 SLUG_SIZE = 'size-plus-header-wraps-uint32'
 SLUG_QUEUE = 'queue-cap-times-12-wraps-uint32'
 SLUG_PCT = 'percent-sum-wraps-uint32'
@@ -24,6 +24,7 @@ CONSTANTS
   Extra <- MCExtra
   QueueCaps <- MCQueueCaps
   Arms <- MCArms
+  Helds <- MCHelds
   SmallCap = %(smallcap)d
   M = %(m)d
   Emit = %(emit)s
@@ -42,9 +43,9 @@ def wrapper(g):
                       for m, ps, gl in g.get('extra', []))
     return ('---- MODULE MC_Layout ----\nEXTENDS Layout\n'
             'MCMemLens == %s\nMCSizes == %s\nMCPercents == %s\nMCSizes2 == %s\nMCPercents2 == %s\nMCSizes3 == %s\nMCPercents3 == %s\n'
-            'MCQueueCaps == %s\nMCArms == {FALSE, TRUE}\nMCExtra == <<%s>>\n====\n'
+            'MCQueueCaps == %s\nMCArms == {FALSE, TRUE}\nMCHelds == %s\nMCExtra == <<%s>>\n====\n'
             % (tset(g['mem']), tset(g['s1']), tset(g['p1']), tset(g['s2']), tset(g['p2']), tset(g['s3']), tset(g['p3']),
-               tset(g['qcaps']), extra))
+               tset(g['qcaps']), tset(g.get('helds', [0, 1, -1])), extra))
 
 
 def cfg(g, m=0, emit=True, constraints=()):
@@ -257,7 +258,7 @@ def run(prop, tier, seed, replay=None):
         return ck.finish()
     report(ck, r, known)
     ck.add('traces_validated_against_impl', r['conforming'])
-    for k in ('rows', 'buf_executions', 'create_ok', 'create_err', 'peer_mapped', 'backend_file', 'backend_memfd', 'slots_checked',
+    for k in ('rows', 'buf_executions', 'create_ok', 'create_err', 'peer_mapped', 'backend_file', 'backend_memfd', 'slots_checked', 'buffers_held_while_peer_mapped',
               'slices_popped', 'bytes_patterned', 'queue_executions', 'queue_elements', 'edge_cases', 'edge_skipped_known',
               'skipped_arm_rows', 'oob_header_write', 'memfd_left_open_on_failed_create', 'counter_offsets'):
         ck.cov[k] = r[k]
@@ -270,7 +271,7 @@ def run(prop, tier, seed, replay=None):
     for s in r['samples']:
         ck.sample(s)
     ck.sample({'tlc_row': rows[len(rows) // 2],
-               'format': 'B viaGlobal memLen nPairs (size pct)* creatorOk peerOk nLists (off cap capPer)* used | Q cap arm total '
+               'format': 'B viaGlobal held memLen nPairs (size pct)* creatorOk peerOk nLists (off cap capPer sizeWord headWord)* used | Q cap arm total '
                          'A.send A.recv B.send B.recv head tail flag ring ringBytes'})
     if r['oob_header_write']:
         ck.notes.append('createBufferManager stores the 2-byte listNum before validating the size: with a 1-byte mapping it writes '
